@@ -40,7 +40,7 @@ inductive Branch where
   | frechet | perfect | opposite | independent
   deriving DecidableEq, Repr
 
-/-- family of low-level routine (`*_op(·,·,operator.add)` then sort; `frechet_pbox_mul` / `*_op(·,·,mul)`; the pow branches) -/
+/-- family of low-level routine (`*_op(·,·,operator.add)` then sort; `frechet_pbox_mul` / `*_op(·,·,mul)`; `*_op(·,·,operator.pow)` then sort) -/
 inductive Fam where
   | add | mul | pow
   deriving DecidableEq, Repr
@@ -80,7 +80,7 @@ def mulDispatch : Code → Except Err Branch
   | .i => .ok .independent
   | .unk _ => .error .Unbound
 
-/-- `match dependency` of `pow`: no default case either -/
+/-- `match dependency` of `pow` (the four `*_op(·,·,operator.pow)` routines, then sort): no default case either -/
 def powDispatch : Code → Except Err Branch
   | .f => .ok .frechet
   | .p => .ok .perfect
